@@ -482,9 +482,13 @@ PropagateEnter(t, u) ==
   /\ Derive
 
 \* a manager called with an argument it refuses (dynamic_evaluate with a non-callable, detour with a
-\* non-class source): entering raises and NOTHING changes
+\* non-class source, load_types_for_deserialization with something that has no __name__, catch_errors
+\* with a non-exception, apply_wrappers with a non-wrapper): entering raises and NOTHING changes -
+\* in particular the enclosing scopes of the same manager still restore exactly when they are left
+\* every manager that validates / reads its arguments while entering
+Refusable == {"dyn", "detour", "ldtypes", "catch", "wrap"}
 EnterRaises(t, m) ==
-  /\ m \in fam \cap {"dyn", "detour"}
+  /\ m \in fam \cap Refusable
   /\ Len(prog[t]) < DepthOf(t)
   /\ act' = <<"EnterRaises", t, m>>
   /\ out' = "refused" /\ cbk' = 0
@@ -532,7 +536,7 @@ Next ==
     \/ ExitByException(t)
     \/ \E m \in fam : \E a \in Args(m) : Enter(t, m, a)
     \/ \E u \in Threads : PropagateEnter(t, u)
-    \/ \E m \in {"dyn", "detour"} : EnterRaises(t, m)
+    \/ \E m \in Refusable : EnterRaises(t, m)
     \/ EndEarly(t)
     \/ \E m \in {"detour", "dyn", "viewopt"} : InnerFault(t, m)
 
